@@ -17,7 +17,7 @@ from __future__ import annotations
 import ast
 import os
 
-from harness import common
+from harness import c09_norm, common
 from harness.common import clist, cstr
 
 CF = "onnxscript/optimizer/_constant_folding.py"
@@ -238,34 +238,89 @@ def _is_none(n):
     return isinstance(n, ast.Constant) and n.value is None
 
 
+_NEG = {"Eq": "NotEq", "NotEq": "Eq", "Is": "IsNot", "IsNot": "Is", "In": "NotIn", "NotIn": "In"}
+_SYM = {"Eq", "NotEq", "Is", "IsNot"}
+
+
+def _isinstance_parts(n, where):
+    """(subject text, [type texts]) of an isinstance call, None for another node."""
+    if not (isinstance(n, ast.Call) and isinstance(n.func, ast.Name) and n.func.id == "isinstance"):
+        return None
+    if len(n.args) != 2 or n.keywords:
+        raise Broken(f"{where}: isinstance with {len(n.args)} arguments (line {n.lineno})")
+    ty = n.args[1]
+    return ast.unparse(n.args[0]), ([ast.unparse(e) for e in ty.elts] if isinstance(ty, ast.Tuple) else [ast.unparse(ty)])
+
+
 def comparisons_in(node, where):
-    """Every comparison of a unit, in source order, as text `Op: left ; right` / `call f: args [@receiver]` / `isinstance: x ; T`.
-    Left out by rule (not comparisons of dims): presence tests `x is (not) None`, isinstance against a type outside DIM_TYPES."""
+    """Every comparison of a unit IN NORMAL FORM (harness/c09_norm.py: names by binding position, temporaries substituted,
+    annotations / docstrings gone), in source order, as text `Op: left ; right` / `call f: args [@receiver]` /
+    `isinstance: x ; T1 | T2`.  Canonical spellings (c09_norm step 5): `not a == b` is recorded as NotEq (likewise is / in;
+    `not` is pushed through and / or), the two operands of == / != / is / is not are sorted, an isinstance against a tuple
+    and an `or` of isinstance calls on the same subject are one record with the types sorted.
+    Left out by rule (not comparisons of dims): presence tests `x is (not) None`, isinstance against types outside DIM_TYPES."""
     found = []
-    for n in ast.walk(node):
+
+    def isinst(pos, subj, tys):
+        tys = sorted(set(tys))
+        if any(x in DIM_TYPES for x in tys):
+            found.append((pos[0], pos[1], "isinstance: " + subj + " ; " + " | ".join(tys)))
+
+    def rec(n, neg=False):
+        if isinstance(n, ast.UnaryOp) and isinstance(n.op, ast.Not):
+            rec(n.operand, not neg)
+            return
+        if isinstance(n, ast.BoolOp):
+            vals = list(n.values)
+            if isinstance(n.op, ast.Or):
+                # isinstance(x, A) or isinstance(x, B) [or ...] on one subject == isinstance(x, (A, B))
+                groups, rest = {}, []
+                for v in vals:
+                    p = _isinstance_parts(v, where)
+                    if p is None:
+                        rest.append(v)
+                    elif p[0] in groups:
+                        groups[p[0]][1].extend(p[1])
+                        rec(v.args[0]); rec(v.args[1])
+                    else:
+                        groups[p[0]] = ((v.lineno, v.col_offset), list(p[1]))
+                        rec(v.args[0]); rec(v.args[1])
+                for subj, (pos, tys) in groups.items():
+                    isinst(pos, subj, tys)
+                vals = rest
+            for v in vals:
+                rec(v, neg)
+            return
         if isinstance(n, ast.Compare):
             ops = [type(o).__name__ for o in n.ops]
             for o in ops:
                 if o not in _OPS:
                     raise Broken(f"{where}: unknown comparison operator {o} (line {n.lineno})")
             operands = [n.left] + list(n.comparators)
-            if all(o in ("Is", "IsNot") for o in ops) and any(_is_none(x) for x in operands):
-                continue
-            found.append((n.lineno, n.col_offset, ",".join(ops) + ": " + " ; ".join(ast.unparse(x) for x in operands)))
+            if not (all(o in ("Is", "IsNot") for o in ops) and any(_is_none(x) for x in operands)):
+                texts = [ast.unparse(x) for x in operands]
+                if len(ops) == 1:
+                    if neg and ops[0] in _NEG:
+                        ops = [_NEG[ops[0]]]
+                    if ops[0] in _SYM:
+                        texts = sorted(texts)
+                found.append((n.lineno, n.col_offset, ",".join(ops) + ": " + " ; ".join(texts)))
         elif isinstance(n, ast.Call):
             f = n.func
             name = f.id if isinstance(f, ast.Name) else (f.attr if isinstance(f, ast.Attribute) else None)
             if name == "isinstance":
-                if len(n.args) != 2 or n.keywords:
-                    raise Broken(f"{where}: isinstance with {len(n.args)} arguments (line {n.lineno})")
-                ty = n.args[1]
-                tys = [ast.unparse(e) for e in ty.elts] if isinstance(ty, ast.Tuple) else [ast.unparse(ty)]
-                if any(x in DIM_TYPES for x in tys):
-                    found.append((n.lineno, n.col_offset, "isinstance: " + ast.unparse(n.args[0]) + " ; " + ast.unparse(ty)))
+                p = _isinstance_parts(n, where)
+                if p is None:
+                    raise Broken(f"{where}: isinstance called through a receiver (line {n.lineno})")
+                isinst((n.lineno, n.col_offset), p[0], p[1])
             elif name in CMP_CALLS:
                 recv = " @" + ast.unparse(f.value) if isinstance(f, ast.Attribute) else ""
                 args = [ast.unparse(a) for a in n.args] + [f"{kw.arg}={ast.unparse(kw.value)}" for kw in n.keywords]
                 found.append((n.lineno, n.col_offset, f"call {name}: " + " ; ".join(args) + recv))
+        for c in ast.iter_child_nodes(n):
+            rec(c)
+
+    rec(node)
     return [txt for _, _, txt in sorted(found)]
 
 
@@ -277,6 +332,7 @@ def comparison_units(repo):
         tree = _parse(repo, rel)
         short = os.path.basename(rel)
         seen = set()
+        helpers = c09_norm.expression_helpers(tree, lambda f: bool(_names_in(f)[0]))
         for st in tree.body:
             if isinstance(st, (ast.FunctionDef, ast.AsyncFunctionDef, ast.ClassDef)):
                 feats, _ = _names_in(st)
@@ -285,7 +341,11 @@ def comparison_units(repo):
                 if st.name in seen:
                     raise Broken(f"{rel}: {st.name} is defined twice at module level")
                 seen.add(st.name)
-                out.append((f"{short}:{st.name}", comparisons_in(st, f"{rel}:{st.name}")))
+                try:
+                    unit = c09_norm.normal_unit(st, helpers)
+                except (SyntaxError, ValueError, RecursionError) as e:
+                    raise Broken(f"{rel}:{st.name}: the unit cannot be brought to normal form ({type(e).__name__}: {e})")
+                out.append((f"{short}:{st.name}", comparisons_in(unit, f"{rel}:{st.name}")))
     return out
 
 
@@ -311,8 +371,10 @@ def coq_text(ev, units, cmps=None):
     lines.append("  " + clist([f"({cstr(f + ':' + u)}, {clist([cstr(x) for x in feats])})" for f, u, k, feats in units]) + ".")
     if cmps is not None:
         lines += ["", "(* key = \"file:unit\" of every module-level function / class of the anchored files that reads shape information, with every",
-                  "   comparison of its body in source order: `Op: left ; right`, `call helper: args @receiver`, `isinstance: x ; T`",
-                  "   (presence tests against None and isinstance against non-dim types are left out by rule) *)",
+                  "   comparison of its body in source order: `Op: left ; right`, `call helper: args @receiver`, `isinstance: x ; T1 | T2`,",
+                  "   read off the NORMAL FORM of the unit (harness/c09_norm.py: parameters p<i> / locals v<i> by binding position,",
+                  "   single-use temporaries substituted, canonical spelling of == / != / not / isinstance); presence tests against",
+                  "   None and isinstance against non-dim types are left out by rule *)",
                   "Definition comparisons : list (string * list string) :="]
         lines.append("  " + clist(["\n   (" + cstr(k) + ", " + clist([cstr(x) for x in cs]) + ")" for k, cs in cmps]) + ".")
     return "\n".join(lines) + "\n"
